@@ -114,6 +114,9 @@ def call(case, grid, ds, nm, lazy):
                                         dask="allowed" if core_chunked else "parallelized",
                                         map_overlap=bool(case["map_overlap"]) and lazy and core_chunked,
                                         **{k: v for k, v in kw.items() if k != "to"})
+    if kind == "vecplain":
+        # a vector component on a grid without face connections, lazily
+        return getattr(grid, case["op"])({axis[0]: da}, axis[0], other_component={nm(a["other_axis"]): da}, **kw)
     if kind == "face":
         if a.get("other"):
             oth = model.make_array(a["other"], nm, ds, name="v2")
@@ -232,6 +235,9 @@ def gen_cases(rng, thorough):
         for _ in range(3):
             spec = [[d, [L] if d in spatial else rng.choice(compositions(L))] for d, L in zip(dims, shape)]
             cases += with_chunks(rng, b, "face", [spec])
+    for _ in range(nbase // 3):
+        b = c04.gen_plain(rng, 0)
+        cases += with_chunks(rng, b, "vecplain", chunk_variants(rng, b, operated_dim(b), nsample=1)[:6])
     for k, c in enumerate(cases):
         c["id"] = k + 1
     return cases
@@ -279,7 +285,7 @@ def run(ctx):
             ctx.reject(classify(r, bad[r["id"]]), f"spec rejects record: {bad[r['id']]}", r)
     ctx.evaluations = len(recs)
     ctx.extra["refusals_observed"] = refused
-    ctx.extra["records_by_kind"] = {k: sum(1 for r in recs if r["kind"] == k) for k in ("op", "weighted", "metric", "ufunc", "face")}
+    ctx.extra["records_by_kind"] = {k: sum(1 for r in recs if r["kind"] == k) for k in ("op", "weighted", "metric", "ufunc", "face", "vecplain")}
 
     def corrupt(r):
         if r["out"]["k"] != "array" or r["eager"]["k"] != "array":
